@@ -1642,6 +1642,10 @@ class Message(ABC):
                 for k, v in value.items():
                     if hasattr(v, "to_dict"):
                         output_map[k] = v.to_dict(casing, include_default_values)
+                    elif isinstance(v, datetime):
+                        output_map[k] = _Timestamp.timestamp_to_json(v)
+                    elif isinstance(v, timedelta):
+                        output_map[k] = _Duration.delta_to_json(v)
                     elif meta.map_types[1] == TYPE_ENUM:
                         enum_class = self._betterproto.cls_by_field[
                             f"{field_name}.value"
@@ -1749,7 +1753,11 @@ class Message(ABC):
             elif meta.map_types:
                 key_type, value_type = meta.map_types
                 sub_cls = cls._betterproto.cls_by_field[f"{field_name}.value"]
-                if value_type == TYPE_MESSAGE:
+                if value_type == TYPE_MESSAGE and sub_cls == datetime:
+                    convert = isoparse
+                elif value_type == TYPE_MESSAGE and sub_cls == timedelta:
+                    convert = _parse_duration
+                elif value_type == TYPE_MESSAGE:
                     convert = sub_cls.from_dict
                 elif value_type == TYPE_ENUM:
 
